@@ -314,7 +314,7 @@ reg('C01',
     deadline={'quick': 110, 'thorough': 1700},
     level=MC,
     technique='bounded-exhaustive enumeration of input byte strings x input-buffer sizes x segmentations x residues, executed on the real library under ASan + UBSan with exact-size heap blocks and a tail-poisoned input buffer',
-    rule={'quick': 'D1: every byte string of length <= 4 over 28 bytes (one per character class incl. NUL, 0x80, 0xFF) x every input-buffer size 2..len+2 x {whole, every single split point, one byte per call} + zero-length flush x {fresh context, 6 residues}, omnivore handlers applying every SCPI_ParamTo*/Expr*/Result*/ToStr API to every token; D2: "A <p> NL" for every p of length <= 4 over 20 bytes through the omnivore and each of 18 typed readers (two deliveries); D3: every D1 string NUL-terminated to SCPI_Parse; error ring of 2 entries; default and static-heap (9-byte heap) builds; non-trivial = (string, buffer size) case that reached a handler',
+    rule={'quick': 'D1: every byte string of length <= 4 over 28 bytes (one per character class incl. NUL, 0x80, 0xFF) x every input-buffer size 2..len+2 x {whole, every single split point, one byte per call} + zero-length flush x {fresh context, 6 residues}, omnivore handlers applying every SCPI_ParamTo*/Expr*/Result*/ToStr API to every token; D2: "A <p> NL" for every p of length <= 4 over 20 bytes through the omnivore and each of 18 typed readers (two deliveries); D3: every D1 string NUL-terminated to SCPI_Parse; D4: every history of <= 4 messages over 9 steps (undefined headers of length 1..6, SYST:ERR?, *CLS) on one context, info heap sizes 5..12; D5: "A " + every string of length <= 5 over 11 token-forming bytes in exactly fitting buffers; error ring of 2 entries; default and static-heap (9-byte heap) builds; non-trivial = (string, buffer size) case that reached a handler',
           'thorough': 'strings of length <= 5 (length 5 with four buffer sizes), all four build configurations'},
     assumptions=['bytes are represented by character class (28 representatives), not all 256 values',
                  'memory safety is judged by ASan/UBSan on this x86-64 build; uninitialised reads are not detected (no MSan run)'],
